@@ -316,9 +316,9 @@ func crEvalInner(cs crCase) *crOut {
 func crEval(cs crCase) []core.Finding {
 	done := make(chan *crOut, 1)
 	go func() { done <- crEvalInner(cs) }()
-	limit := 3 * time.Second
+	limit := 10 * time.Second // generous: a loaded machine must not turn a slow answer into a hang
 	if len(cs.Text) > 10000 {
-		limit = 15 * time.Second
+		limit = 40 * time.Second
 	}
 	select {
 	case o := <-done:
